@@ -244,7 +244,21 @@ def unfocus(sel):
                    tuple(unfocus(ch) for ch in sel.children))
 
 
+def _dup_keys(sel):
+    for _, n in M.all_nodes(sel):
+        keys = [c.alias or c.name for c in n.caps]
+        if len(keys) != len(set(keys)):
+            return True
+    return False
+
+
 def check_total(sel, xs, ys, p0, rec=None):
+    if _dup_keys(sel):
+        # whether a total record lists a value once or once per mention of the variable is not
+        # stated: duplicate mentions are only checked for focused (immediate) selectors
+        if rec is not None:
+            rec.count("total-mode-skipped-duplicate-mention")
+        return
     """Focus-free variant: a total record is delivered iff every value of every constrained
     capture satisfies its condition."""
     from ptera import probing
@@ -518,6 +532,15 @@ def e2e_strategy():
             fvop, fval = draw(constraint())
         fc = G.Cap(fv, None, None, fval, fvop, 1)
         own = draw(caps_for(level_pool, 3, fv))
+        if draw(st.integers(0, 3)) == 0:
+            # the focus variable is mentioned a second time in the same call, with a condition of
+            # its own: both conditions must hold
+            vop, val = draw(constraint())
+            own.append(G.Cap(fv, None, None, val, vop, 0))
+        elif own and draw(st.integers(0, 3)) == 0:
+            # a context variable constrained twice
+            vop, val = draw(constraint())
+            own.append(G.Cap(own[0].name, None, None, val, vop, 0))
         own.insert(draw(st.integers(0, len(own))), fc)
         if shape == "inner":
             s = G.CallN("li", None, tuple(own), ())
